@@ -1757,7 +1757,7 @@ impl Bindgen for FunctionBindgen<'_, '_> {
                         "#
                     );
                     results.push(format!("({flag}.to_int())"));
-                    results.push(format!("({flag} >> 32).to_int())"));
+                    results.push(format!("(({flag} >> 32).to_int())"));
                 }
             },
 
